@@ -41,7 +41,15 @@ def run_kind(kind, tcfg, runtime, retries=0, faults=None):
     w = sweep.build_world("direct-h1" if interim else kind, True, max_connections=2, yield_in_ops=False, retries=retries)
     pool, net = w["pool"], w["net"]
     if faults:
-        net.behavior.faults.update(faults)
+        orig_fault = net.behavior._fault
+
+        def _fault(rec, orig_fault=orig_fault):
+            f = faults.get(rec.get("k"))
+            if f is not None:
+                rec["fault"] = f.__name__
+                raise f(f"injected at op {rec['k']}")
+            return orig_fault(rec)
+        net.behavior._fault = _fault
     if interim:
         import servers
 
@@ -125,7 +133,7 @@ def run(ctx, driver):
                     rec.samples.append(payload)
     # connection attempts that are repeated (retries > 0, the first one or two fail): every attempt carries the request's connect time-out
     import httpcore
-    for kind in ("direct-h1", "direct-tls", "direct-h2"):
+    for kind in ("direct-h1", "direct-tls-h1", "direct-h2"):
         for tcfg in cfgs[:7]:
             for nfail in (1, 2):
                 for what in (httpcore.ConnectError, httpcore.ConnectTimeout):
